@@ -109,7 +109,7 @@ func interp(expr ast.Expr, env *val.Env) *val.Val {
 
 	case *ast.MemberExpr:
 		// 也可以 desugar 成 build-in-fun
-		return interp(e.Obj, env).Obj().V[e.Index]
+		return interp(e.Obj, env).Obj().Load(e.Index, e.Field.Name)
 
 	//case *ast.IfExpr:
 	//	// IF 已经 desugar 成 lazyFun 了, 这里已经没用了
